@@ -307,17 +307,22 @@ set_option linter.unusedVariables false in
 is left out: "`len(frame_stack) >= 2`" is "`stack ≠ []`", "`len(frame_stack) > 2`" is "a caller
 frame exists").  The top of the stack is the head of the list.
 
-* `hasBody m` — `init_compute_frame` finds a CFG and a state space for `m`;
+* `hasBody G f tick` — `init_compute_frame` succeeds for frame `f` (finds a state space and a non-empty
+  CFG; a parameterless method whose body is only a docstring or `...` has none).  It is an ORACLE: it
+  may depend on the global state, the frame and the time, so "the callee cannot be initialised" is one
+  of the behaviours every theorem about `driver` quantifies over; a frame that fails is popped at
+  once and — because the caller marked the call site as handled when it SCHEDULED the frame, not when
+  the frame completed — is never scheduled again for the same interruption;
 * `mkLoc m`   — the initial local (statement-loop) state of a frame of `m`.
 Returns the event trace (its length is the number of driver steps) and the final global state.
 -/
-def driver {φ : Type} {U : List Site} {B : Nat} (R : Runner U B φ) (hasBody : Int → Bool)
+def driver {φ : Type} {U : List Site} {B : Nat} (R : Runner U B φ) (hasBody : Glob → Frame φ → Nat → Bool)
     (mkLoc : Int → φ) (stack : List (Frame φ)) (G : Glob) (tick : Nat) : List DEv × Glob :=
   match hst : stack with
   | [] => ([], G)
   | f :: rest =>
     if hi : f.inited = false then
-      if hasBody f.method = false then
+      if hasBody G f tick = false then
         let r := driver R hasBody mkLoc rest G tick
         (DEv.initFail f.method :: r.1, r.2)
       else
@@ -376,7 +381,7 @@ decreasing_by
 def entryFrame {φ : Type} (mkLoc : Int → φ) (entry : Int) : Frame φ :=
   { method := entry, callStmt := -1, path := [], caa := [], inited := false, loc := mkLoc entry }
 
-def driverSteps {φ : Type} {U : List Site} {B : Nat} (R : Runner U B φ) (hasBody : Int → Bool)
+def driverSteps {φ : Type} {U : List Site} {B : Nat} (R : Runner U B φ) (hasBody : Glob → Frame φ → Nat → Bool)
     (mkLoc : Int → φ) (entry : Int) (G : Glob) : Nat :=
   (driver R hasBody mkLoc [entryFrame mkLoc entry] G 0).1.length
 
